@@ -9,7 +9,7 @@ PROPS_FILES = ['Props/Properties_C12.v', 'Props/Properties_C12_filters.v']
 THEOREMS = ['C12_combine', 'C12_documented_is_function', 'C12_inherit', 'C12_global_keys', 'C12_syntax', 'C12_plain_files', 'C12_spacebug_sticky', 'C12_refuted', 'C12_spf_temp_class_witness', 'C12_checker_sound_partial', 'C12_unfixed_refuted',
             'C12_getfile_precedence', 'C12_listfile_plain', 'C12_listfile_inherit', 'C12_listfile_total', 'C12_list_entry',
             'C12_badmailfrom', 'C12_badcc', 'C12_helo', 'C12_ipbl', 'C12_soberg', 'C12_check2822', 'C12_check2822_all', 'C12_nomail',
-            'C12_forceesmtp', 'C12_dnsbl', 'C12_dnsbl_unfixed_refuted', 'C12_namebl', 'C12_namebl_unfixed_refuted',
+            'C12_forceesmtp', 'C12_dnsbl', 'C12_dnsbl_unfixed_refuted', 'C12_namebl', 'C12_namebl_unfixed_refuted', 'C12_fromdomain', 'C12_fromdomain_address',
             'C12_filters_checker_sound']
 ENGINES = [dict(name='filters', c_sources=['filters_h.c', 'filters_real.c', 'filters_real2.c'], extract='Extract/Extract_filters.v',
                 driver='filters_driver.ml', accepts=lambda c: c.startswith('cc ')),
